@@ -147,6 +147,7 @@ def expand_model(real, features=None):
     """Feed the oracle records of `real` (from expand_real) to the Lean driver. Returns {id: (outcome, items)}."""
     lines = []
     ids = []
+    gkeys = {}
     for i, r in real.items():
         if "input" not in r:
             continue
@@ -155,11 +156,23 @@ def expand_model(real, features=None):
         if features is not None:
             req.append(features)
         lines.append(json.dumps(req))
+        # the grouped variants (field types inside None-delimited groups): the model reads their records as well
+        for g in r.get("group") or []:
+            if g.get("input") is not None:
+                key = "g%s/%s" % (i, g["mode"])
+                gkeys[key] = (i, g)
+                lines.append(json.dumps(["expand", key, g["input"]] + ([features] if features is not None else [])))
     res = common.run_driver(lines)
     out = {}
     for l in res:
         if l and l[0] == "expand":
-            out[l[1]] = (l[2], l[3])
+            if l[1] in gkeys:
+                gkeys[l[1]][1]["model"] = (l[2], [(it["trait"], it["preds"], it["head"]) for it in l[3]])
+            else:
+                out[l[1]] = (l[2], l[3])
+    for i, r in real.items():
+        if i in out and r.get("group"):
+            r["model_plain"] = (out[i][0], [(it["trait"], it["preds"], it["head"]) for it in out[i][1]])
     return out
 
 
@@ -242,6 +255,13 @@ def compare(r, m, strict_class=True, compare_items=True):
                 if rp != mp:
                     bad.append("where-predicates of %s: implementation %s, model %s" % (n, rp, mp))
         bad += header_check(r)
+        # Deref: the associated type `Target` is the fully dereferenced type of the designated field (model: head of the item)
+        for it, mit in zip(r["items"], items):
+            tgt = (it.get("assoc") or {}).get("Target") if isinstance(it, dict) else None
+            if tgt is not None and mit["trait"] in ("Deref",) and mit.get("head"):
+                want = mit["head"][1] if len(mit["head"]) == 3 else mit["head"][0]
+                if nospace(tgt) != want:
+                    bad.append("Deref::Target: implementation %s, model %s" % (tgt, want))
     return bad
 
 
@@ -278,6 +298,9 @@ def grouped_findings(r, src):
                                     % (r["outcome"], g["outcome"]), "rust_source": g.get("macro_src") or src, "observed": g.get("message")})
         elif not g.get("same_tokens", True):
             broken.append("a definition expands to different tokens when its field types come from macro fragments (mode %s)" % g["mode"])
+        if g.get("model") is not None and r.get("model_plain") is not None and g["mode"] != 3 and g["model"] != r["model_plain"]:
+            broken.append("the model reads a definition differently when its field types come from macro fragments (mode %s): %s vs %s"
+                          % (g["mode"], str(g["model"])[:150], str(r["model_plain"])[:150]))
     return failing, broken
 
 
